@@ -159,7 +159,7 @@ impl World for C41 {
         "ledger"
     }
     fn rule(&self) -> String {
-        "Per run: 3-5 fungible resources of seeded divisibility (0..18), two parties holding them, one-, two- and multi-resource pools created over them (pool manager rule allow_all), and a seeded history of contribute / redeem / k contributions followed in the same transaction by the redemption of the units they produced / protected deposit / protected withdraw (all strategies), with amounts from one unit of divisibility to beyond the holdings, injected system errors (F5) and node restarts (F8). Oracle, in exact integers (attos) from balances read from the store before and after each transaction: (a) a redemption of u units pays per resource paid_i * supply <= u * reserve_i, burns exactly u, and pays out of the reserves only; (b) reserves are never negative and reserve change == -(account change) per resource for contribute/redeem (nothing lost: taken + change == offered); (c) a k-fold contribute followed immediately by redeeming the minted units leaves the actor with no more of any pool resource than before, when the pool had units outstanding or was empty (the documented 'dried-out pool' state - no units, dust reserves - is exempt: the first contributor gets the dust); (d) multi-resource contributions in the normal state take resources in the current reserve ratio within one unit of divisibility (+ the 1e-36 truncation of the implementation's precise decimals); (e) a failed or fault-injected transaction leaves reserves and unit supply unchanged. evaluations = engine executions; distinct = distinct (pool arity, divisibilities, step kind, pool state class, outcome).".into()
+        "Per run: 3-5 fungible resources of seeded divisibility (0..18), two parties holding them, one-, two- and multi-resource pools created over them (pool manager rule allow_all), and a seeded history of contribute / redeem / k contributions followed in the same transaction by the redemption of the units they produced / protected deposit / protected withdraw (all strategies), with amounts from one unit of divisibility to beyond the holdings, injected system errors (F5) and node restarts (F8). Oracle, in exact integers (attos) from balances read from the store before and after each transaction: (a) a redemption of u units pays per resource paid_i * supply <= u * reserve_i, burns exactly u, and pays out of the reserves only; (b) reserves are never negative and reserve change == -(account change) per resource for contribute/redeem (nothing lost: taken + change == offered); (c) a k-fold contribute followed immediately by redeeming the minted units leaves the actor with no more of any pool resource than before, when the pool had units outstanding or was empty (the documented 'dried-out pool' state - no units, dust reserves - is exempt: the first contributor gets the dust); (d) multi-resource contributions in the normal state take resources in the current reserve ratio within one unit of divisibility (+ the 1e-36 truncation of the implementation's precise decimals) and never skip a resource with a non-zero reserve while taking others; (e) a failed or fault-injected transaction leaves reserves and unit supply unchanged. evaluations = engine executions; distinct = distinct (pool arity, divisibilities, step kind, pool state class, outcome).".into()
     }
     fn assumptions(&self) -> Vec<String> {
         vec![
@@ -584,6 +584,17 @@ impl World for C41 {
                             }
                             if taken.iter().zip(offered.iter()).any(|(t, o)| t < o) {
                                 stats.bump("contribute.with_change");
+                            }
+                            // "in the pool's current ratio": a resource with a non-zero reserve is never skipped
+                            // altogether while others are taken (a zero share is not a ratio)
+                            if p.res.len() >= 2 && !pre.supply.is_zero() {
+                                if let Some(i) = (0..p.res.len()).find(|i| !pre.reserves[*i].is_zero() && taken[*i].is_zero() && taken.iter().any(|t| t.is_positive())) {
+                                    violation = Some(mk(
+                                        "c41.contribution_skips_a_reserve",
+                                        format!("step {:?}: nothing was taken of resource #{} (reserve {}) although {:?} was taken of the others and pool units were minted: {}", step, i, pre.reserves[i], taken, describe(&pre, &post)),
+                                    ));
+                                    break;
+                                }
                             }
                             if state_class == "normal" && p.res.len() >= 2 {
                                 // (d) taken amounts follow the reserve ratio within one unit of divisibility
